@@ -137,7 +137,7 @@ impl Gen {
             en_refs: f(&mut r, if focus == Focus::Packing { 70 } else { 35 }),
             en_marker: f(&mut r, 50),
             en_events: matches!(focus, Focus::Events | Focus::Auth) || f(&mut r, 25),
-            en_cevents: matches!(focus, Focus::Events) || f(&mut r, 20),
+            en_cevents: matches!(focus, Focus::Events | Focus::Byzantine) || f(&mut r, 20),
             en_conn: matches!(focus, Focus::Crash | Focus::Auth) || f(&mut r, 25),
             en_restart: matches!(focus, Focus::Crash) && f(&mut r, 60) || f(&mut r, 10),
             en_prespawn: focus == Focus::PreSpawn || f(&mut r, 10),
@@ -422,6 +422,19 @@ impl Gen {
 
     fn inject(&mut self) {
         let client = self.r.below(self.prof.clients as usize) as u8;
+        if self.r.chance(45) {
+            // Structure-aware: mutate a real message of this client that is still in flight.
+            let mut chans = vec![Chan::Acks, Chan::CEv(CEv::Ord), Chan::CEv(CEv::Map), Chan::CEv(CEv::Trig)];
+            if self.prof.app.auth == 0 {
+                chans.push(Chan::ProtoHash);
+            }
+            let chan = self.r.pick(&chans);
+            let kind = self.r.below(5) as u8;
+            let a = self.r.below(64) as u16;
+            let b = self.r.pick(&[0u8, 1, 0x7f, 0x80, 0xff, 0xfe]);
+            self.steps.push(Step::InjectMut { client, chan, kind, a, b });
+            return;
+        }
         let nch = 1 + (self.prof.app.auth == 0) as usize + ALL_CEV.len();
         let channel = self.r.below(nch) as u8;
         let len = self.r.weighted(&[1, 4, 4, 3, 3, 2, 1]);
